@@ -59,8 +59,12 @@ def r03a(ctx):
                 writers.setdefault(p, []).append((cb, sg(t.get('fn', '')).split('::')[-1]))
         if ab.stores_to_field('chunk_hashes'):
             writers.setdefault(p, []).append((-1, 'store'))
-    ok = set(writers) == {PC} and [m for (_, m) in writers[PC]] == ['extend']
-    ctx.check(ok, 'R03a', 'deduplication', 'writers(chunk_hashes)', '-', 'chunk_hashes is mutated only by one Vec::extend in process_chunks', 'writers: %s' % {k: [m for _, m in v] for k, v in writers.items()})
+    kinds = [m for (_, m) in writers.get(PC, [])]
+    ok = set(writers) == {PC} and kinds in (['extend'], ['push'])
+    ctx.check(ok, 'R03a', 'deduplication', 'writers(chunk_hashes)', '-', 'chunk_hashes is mutated only by one Vec::extend (or one push in a loop over the chunks) in process_chunks', 'writers: %s' % {k: [m for _, m in v] for k, v in writers.items()})
+    if ok and kinds == ['push']:
+        _r03a_push_form(ctx, F, writers)
+        ok = False      # (the extend-form obligations below do not apply)
     nw = an(F.body('deduplication::file_deduplication::FileDeduper::<DataInterfaceType>::new'))
     rs = [e for (_, _, _, e) in nw.ret_sites()]
     ch = dict(rs[0][3]).get('chunk_hashes') if rs and rs[0][0] == 'agg' else None
@@ -83,6 +87,40 @@ def r03a(ctx):
         oks_ = [(b, si) for (b, si, k, e) in ap.ret_sites() if k != 'err']
         ctx.check(bool(oks_) and all(ap.cfg.must_pass(b, via_blocks=[ex]) for (b, si) in oks_), 'R03a', PC, 'extend.allpaths', ap.loc(ex), 'every successful return of process_chunks passes the extension (cannot be skipped by a dedup decision)',
                   'a successful path of process_chunks skips recording the chunk hashes: the file hash then depends on what was deduplicated')
+
+
+def _r03a_push_form(ctx, F, writers):
+    """`for c in chunks { self.chunk_hashes.push((c.hash, c.data.len())) }`: the loop runs over the whole chunks parameter,
+    every iteration pushes the pair of the element it visits, the loop is left only when the iterator is exhausted, and
+    every successful return of process_chunks has passed it."""
+    ap = an(F.body(PC))
+    P = writers[PC][0][0]
+    lp = c05.loop_of(ap, P)
+    nest = [h for h, blks in ap.cfg.loops().items() if P in blks]
+    if not ctx.check(lp is not None and len(nest) == 1, 'R03a', PC, 'extend.noloop', ap.loc(P), 'the push sits in exactly one loop (one pass over the chunks)', 'the chunk-hash push is not inside exactly one loop'):
+        return
+    head, blks = lp
+    nx = [c for c in ap.calls('core::iter::traits::iterator::Iterator::next') if c in blks and c05.loop_of(ap, c)[0] == head]
+    is_chunks = lambda z: (z[0] == 'upvar' and z[1] == 'chunks') or (z[0] == 'param' and z[2] == 'chunks')
+    src_ok = False
+    it = None
+    if len(nx) == 1:
+        it = ap.arg(nx[0], 0)
+        srcs = [e_ for (_, _, e_) in ap.flow.sources(it)]
+        src_ok = bool(srcs) and all(is_chunks(e_) or (e_[0] == 'call' and sg(e_[1]).split('::')[-1] in ('iter', 'into_iter') and len(e_[2]) == 1 and is_chunks(e_[2][0])) for e_ in srcs)
+    ctx.check(src_ok, 'R03a', PC, 'extend.src', ap.loc(P), 'the loop iterates the whole chunks parameter', 'chunk_hashes is filled from something other than a pass over the whole chunks parameter')
+    v = ap.arg(P, 1)
+    okc = (v[0] == 'agg' and v[1] == 'tuple' and len(v[3]) == 2 and it is not None and v[3][0][1] == ('field', it, 'hash')
+           and flow.mentions(v[3][1][1], lambda z: z == ('field', it, 'data')) and v[3][1][1][0] in ('len', 'call') and 'len' in flow.show(v[3][1][1]))
+    ctx.check(okc, 'R03a', PC, 'extend.map', ap.loc(P), 'each chunk contributes (its hash, its data length)')
+    ctx.check(c05.latches_guarded(ap, lp, ap.cfg.out_edges(P)), 'R03a', PC, 'extend.every', ap.loc(P), 'every iteration pushes (no chunk is skipped)', 'an iteration of the recording loop can skip the push')
+    errb = ap.error_blocks()
+    none = set(ap.dest_variant_edges(nx[0]).get('0', [])) if nx else set()
+    exits = {(x, y) for x in blks for y in ap.cfg.succ[x] if y not in blks and y not in errb and not ap.blocks[y].get('cl')}
+    ctx.check(bool(none) and exits <= none, 'R03a', PC, 'extend.exhaust', ap.loc(P), 'the recording loop is left only when the chunks are exhausted', 'the recording loop can stop before all chunks were recorded')
+    oks_ = [(b, si) for (b, si, k, e) in ap.ret_sites() if k != 'err']
+    ctx.check(bool(oks_) and bool(none) and all(ap.cfg.must_pass(b, via_edges=none) for (b, si) in oks_), 'R03a', PC, 'extend.allpaths', ap.loc(P), 'every successful return of process_chunks passes the recording loop (cannot be skipped by a dedup decision)',
+              'a successful path of process_chunks skips recording the chunk hashes: the file hash then depends on what was deduplicated')
 
 
 def r03b(ctx):
